@@ -6,6 +6,16 @@ Import ListNotations.
 Require Import PV.Scopes.Sop.
 Open Scope string_scope.
 
+Definition exp_scope__add_single_constraint : list sop :=
+  [
+  PIf "constraint.varname is None" [
+    PTok "return"] [];
+  PFor "(parent_varname, constraint_origin) in constraint.varname.get_all_varnames()" [
+    PIf "current_set - constraint_set" [
+      PTok "return"] []];
+  PTok "def_nodes = tuple(dict.fromkeys(self.name_to_current_definition_nodes[varname]))";
+  PTok "self.name_to_current_definition_nodes[varname] = [node]"].
+
 Definition exp_scope_combine_subscopes : list sop :=
   [
   PTok "self.name_to_current_definition_nodes.update(self.get_combined_scope(scopes, ignore_leaves_scope=ignore_leaves_scope))"].
